@@ -100,7 +100,18 @@ fn judge_candidate(c: &Ctxs, which: usize, text: &str, out: &mut Out, t: &mut Ta
             return;
         }
     };
-    let list = match type_finish(sess, text) {
+    // the word is ended by finish, by committing the pre-selected candidate or by committing the last candidate
+    // (rotating), so that what an ended word leaves behind would show in the next text
+    let typed = (|| -> Result<riti::suggestion::Suggestion, Panic> {
+        let s = sess.type_text_protocol(text)?.expect("non-empty text");
+        match (which / 4) % 3 {
+            0 => sess.finish()?,
+            1 => sess.commit(if s.is_lonely() { 0 } else { s.previously_selected_index().min(s.len().saturating_sub(1)) })?,
+            _ => sess.commit(if s.is_lonely() { 0 } else { s.len().saturating_sub(1) })?,
+        }
+        Ok(s)
+    })();
+    let list = match typed {
         Ok(s) if !s.is_lonely() => s.get_suggestions().to_vec(),
         Ok(_) => {
             out.violation("transliteration-is-a-candidate", "c03:cand:single-with-suggestions-on".into(), case(), "a list".into(), "a single string".into());
@@ -146,7 +157,7 @@ impl Prop for C03 {
          random alphanumeric words up to 12; each with no wrapping, and strided words with every lead/trail string of length <= 2 over the 27 punctuation characters \
          (757 x 757 pairs sampled; full lead x {empty} and {empty} x trail) and random wrappings up to 3; expected = avro(lead)+avro(word)+avro(trail) from the okkhor parser called directly on the generator's own parts. \
          clause 'candidate' (suggestions on, 4 settings): all 8930 strings of length <= 2 over the 94 typeable characters, the 20-symbol splitter alphabet up to length 3 (quick) / 4 (thorough), random strings up to 10; \
-         the single-string output of a suggestions-off context must be among the candidates after un-curling. distinct_nontrivial = distinct typed texts judged."
+         each text ended by finish / commit of the pre-selected / commit of the last candidate in rotation; the single-string output of a suggestions-off context must be among the candidates after un-curling. distinct_nontrivial = distinct typed texts judged."
             .into()
     }
     fn assumptions(&self) -> Vec<String> {
